@@ -4,5 +4,21 @@ size_t g_eq_witness;
 static _Bool X_equal__CItT_CItT_CItT_CItT(struct CItT f1, struct CItT l1, struct CItT f2, struct CItT l2) { return 0; }
 static _Bool X_equal__CItF_CItF_CItF_CItF(struct CItF f1, struct CItF l1, struct CItF f2, struct CItF l2) { return 0; }
 
-void h_RBt_modCap(void) { struct RBt *s; long i; RBt__modCap(s, i); CANARY; }
-void h_RBt_emplace_back(void) { struct RBt *s; struct Elem *x; RBt__emplace_back_T_Elem_ref(s, x); CANARY; }
+#define HARNESSES(T) \
+void h_##T##_modCap(void) { struct T *s; long i; T##__modCap(s, i); CANARY; } \
+void h_##T##_empty(void) { struct T *s; T##__empty(s); CANARY; } \
+void h_##T##_full(void) { struct T *s; T##__full(s); CANARY; } \
+void h_##T##_size(void) { struct T *s; T##__size(s); CANARY; } \
+void h_##T##_capacity(void) { struct T *s; T##__capacity(s); CANARY; } \
+void h_##T##_op_index(void) { struct T *s; size_t i; T##__op_index__unsigned_long(s, i); CANARY; } \
+void h_##T##_op_index_c(void) { struct T *s; size_t i; T##__op_index__unsigned_long_const(s, i); CANARY; } \
+void h_##T##_front(void) { struct T *s; T##__front(s); CANARY; } \
+void h_##T##_back(void) { struct T *s; T##__back(s); CANARY; } \
+void h_##T##_emplace_back(void) { struct T *s; struct Elem *x; T##__emplace_back_T_Elem_ref(s, x); CANARY; } \
+void h_##T##_emplace_front(void) { struct T *s; struct Elem *x; T##__emplace_front_T_Elem_ref(s, x); CANARY; } \
+void h_##T##_push_back(void) { struct T *s; struct Elem *x; T##__push_back(s, x); CANARY; } \
+void h_##T##_push_front(void) { struct T *s; struct Elem *x; T##__push_front(s, x); CANARY; } \
+void h_##T##_pop_back(void) { struct T *s; struct Elem *r; T##__pop_back(s, r); CANARY; } \
+void h_##T##_pop_front(void) { struct T *s; struct Elem *r; T##__pop_front(s, r); CANARY; }
+HARNESSES(RBt)
+HARNESSES(RBf)
